@@ -288,8 +288,10 @@ func VH_C08_L2(kind, n, B, form int) {
 	vCover("sliced")
 }
 
-// VH_C08_DEL: delete ... limit removes exactly the keys the limited select returns.
-func VH_C08_DEL(n, B int) {
+// VH_C08_DEL: delete ... limit removes exactly the pairs the limited select returns.
+// access 0: range scan over everything; 1: point reads of every stored key (listed in reverse
+// order, plus one absent key); 2: point read of one key.
+func VH_C08_DEL(n, B, access int) {
 	PlanBatchSize = B
 	keys := make([][]byte, n)
 	vals := make([][]byte, n)
@@ -301,15 +303,32 @@ func VH_C08_DEL(n, B int) {
 	ts, s := vDigitsInt("S", 1)
 	tc, c := vDigitsInt("C", 1)
 	lim := " limit " + ts + ", " + tc
-	pd, err := NewOptimizer("delete where key >= 'a'" + lim).BuildPlan(st)
+	where := "key >= 'a'"
+	selected := func(i int) (bool, int) { return true, i } // selected by WHERE, rank among the selected
+	switch access {
+	case 1:
+		where = "key in ('zz'"
+		for i := n - 1; i >= 0; i-- {
+			where += ", '" + string(keys[i]) + "'"
+		}
+		where += ")"
+	case 2:
+		if n < 2 {
+			return
+		}
+		where = "key = 'b'"
+		selected = func(i int) (bool, int) { return i == 1, 0 }
+	}
+	pd, err := NewOptimizer("delete where " + where + lim).BuildPlan(st)
 	vAssert(err == nil, "C08/DEL-rejected")
 	r := vDrainBatch(pd, 2)
 	vAssert(r.err == nil, "C08/DEL-error")
-	// key i must be gone iff s <= i < s+c
+	// pair i must be gone iff it is selected and its rank lies in s..s+c-1
 	ok := true
 	for i := 0; i < n; i++ {
 		_, present := st.lookup(keys[i])
-		inSlice := vAnd(s <= i, i < s+c)
+		sel, rank := selected(i)
+		inSlice := vAnd(sel, vAnd(s <= rank, rank < s+c))
 		ok = vAnd(ok, present == vNot(inSlice))
 	}
 	vAssert(ok, "C08/DEL-deleted-keys-are-the-limited-slice")
